@@ -48,6 +48,7 @@ Apply(op, a, b) ==
        (IF a.t = "s" /\ b.t = "s" THEN S(a.s \o b.s)
         ELSE IF a.t = "s" /\ b.t = "i" THEN S(a.s \o ToString(b.n))
         ELSE IF a.t = "i" /\ b.t = "s" THEN S(ToString(a.n) \o b.s)
+        ELSE IF {a.t, b.t} \in {{"s", "r"}, {"s", "b"}} THEN Skip   \* the rendering of a real / boolean inside a string is not specified
         ELSE Err)
   ELSE IF op \in {"add", "sub", "mul", "div"} THEN
        (IF ~(IsNum(a) /\ IsNum(b)) THEN Err
